@@ -629,6 +629,12 @@ class Repo:
                     return v
                 except Exception:
                     raise KeyError(src(expr))
+            if isinstance(expr.func, ast.Name) and expr.func.id == "zip" and expr.args and not expr.keywords:
+                seqs = [self.const_value(m, a_, depth + 1) for a_ in expr.args]
+                try:
+                    return tuple(zip(*seqs))
+                except Exception:
+                    raise KeyError(src(expr))
             if isinstance(expr.func, ast.Attribute) and expr.func.attr in ("keys", "values", "items") and not expr.args:
                 base = self.const_value(m, expr.func.value, depth + 1)
                 if isinstance(base, dict):
@@ -651,6 +657,22 @@ class Repo:
                 else:
                     raise KeyError(src(expr))
             return tuple(out)
+        if isinstance(expr, ast.DictComp) and len(expr.generators) == 1 and not expr.generators[0].ifs:
+            g = expr.generators[0]
+            seq = self.const_value(m, g.iter, depth + 1)
+            out = {}
+            for item in seq:
+                if isinstance(g.target, ast.Name):
+                    env = {g.target.id: item}
+                elif isinstance(g.target, ast.Tuple) and all(isinstance(t, ast.Name) for t in g.target.elts) and len(g.target.elts) == len(item):
+                    env = {t.id: v for t, v in zip(g.target.elts, item)}
+                else:
+                    raise KeyError(src(expr))
+                if isinstance(expr.key, ast.Name) and expr.key.id in env and isinstance(expr.value, ast.Name) and expr.value.id in env:
+                    out[env[expr.key.id]] = env[expr.value.id]
+                else:
+                    raise KeyError(src(expr))
+            return out
         if isinstance(expr, (ast.Name, ast.Attribute)):
             r = self.resolve_expr(m, expr) if isinstance(expr, ast.Attribute) else self.resolve_name(m, expr.id)
             if r and r[0] == "const":
